@@ -59,7 +59,11 @@ func (e *Engine) modelQuery(o *Obligation, fn *ssa.Function, capBound int64, fix
 	for _, a := range ax {
 		p.Assert(a)
 	}
-	e.literalFacts(p, append(fs, ax...))
+	inits := e.initFactsFor(append(fs, ax...))
+	for _, a := range inits {
+		p.Assert(a)
+	}
+	e.literalFacts(p, append(append(fs, ax...), inits...))
 	var names []string
 	for _, prm := range fn.Params {
 		ls := leavesOf(prm.Type())
